@@ -178,6 +178,38 @@ def scen_set_dist(cfg):
     return scenario
 
 
+def scen_reconnect(cfg):
+    """history: connect, connect the same pair again with other settings, set_delay on the connection -- the sender's view (node.outputs: what graph
+    generation, apply_window and the threaded runtime's connection wrappers read) and the receiver's view (node.inputs: phases, infos) must be one object"""
+    SymDist = _dist_cls()
+
+    def scenario(V):
+        from rex.node import BaseNode
+        from props.c03 import _allv, _close
+
+        a = BaseNode(name="a", rate=10, delay_dist=SymDist(qv=V.grid("qa", lo=0, hi=1), tag="a"))
+        b = BaseNode(name="b", rate=20, delay_dist=SymDist(qv=V.grid("qb", lo=0, hi=1), tag="b"))
+        nm = "obs" if cfg.get("shadow") else None
+        key = nm or "a"
+        b.connect(a, delay=V.grid("d1", lo=0, hi=1), delay_dist=SymDist(qv=V.grid("q1", lo=0, hi=1), tag="first"), name=nm)
+        first = b.inputs[key]
+        res = {"connect: the sender's outputs and the receiver's inputs hold the same connection": a.outputs["b"] is b.inputs[key]}
+        d2 = V.grid("d2", lo=0, hi=1)
+        new = SymDist(qv=V.grid("q2", lo=0, hi=1), tag="second")
+        b.connect(a, window=2, delay=d2, delay_dist=new, name=nm)
+        c_in, c_out = b.inputs[key], a.outputs["b"]
+        res["re-connect: both views hold the new connection (its delay, distribution and window)"] = (c_in is c_out) and (c_in is not first) and (c_out.delay_dist is new) and c_out.window == 2 and bool(_close(V, c_out.delay, d2))
+        d3 = V.grid("d3", lo=0, hi=1)
+        newer = SymDist(qv=V.grid("q3", lo=0, hi=1), tag="third")
+        b.inputs[key].set_delay(delay_dist=newer, delay=d3)
+        c_out = a.outputs["b"]
+        res["set_delay after a re-connect reaches the connection the sender (hence simulation) uses"] = (c_out.delay_dist is newer) and bool(_close(V, c_out.delay, d3)) and bool(_close(V, c_out.info.delay, d3))
+        res["the receiver's phase uses that same expected delay"] = _close(V, b.inputs[key].phase, a.phase_output + d3)
+        return res
+
+    return scenario
+
+
 def _keeps(V, a, b):
     from props.c03 import _close
     d0, dd0 = a.delay, a.delay_dist
@@ -266,7 +298,7 @@ def scen_cycle(cfg):
     return scenario
 
 
-SCEN = {"phase": scen_phase, "set_dist": scen_set_dist, "info": scen_info_roundtrip, "default": scen_default_delay, "cycle": scen_cycle}
+SCEN = {"phase": scen_phase, "set_dist": scen_set_dist, "reconnect": scen_reconnect, "info": scen_info_roundtrip, "default": scen_default_delay, "cycle": scen_cycle}
 
 
 KEY_K5 = "K5:threaded-runtime-binds-delay-distributions-at-warmup"
@@ -467,6 +499,7 @@ def configs(tier):
             for li, sk in enumerate(labellings):
                 out.append(dict(scen="phase", n=n, edges=list(es), skips=list(sk), explicit=(li % 2 == 1) or len(es) == 1))
     out.append(dict(scen="set_dist"))
+    out += [dict(scen="reconnect", shadow=False), dict(scen="reconnect", shadow=True)]
     for es in (((0, 1),), ((0, 1), (1, 2), (0, 2))):
         for explicit in (False, True):
             for shadow in (False, True):  # connections registered under a custom input name
@@ -487,7 +520,7 @@ def run(rep):
     cfgs = configs(rep.tier)
     rep.configs = cfgs
     rep.bounds = dict(nodes="<= 3 (4)", dag_shapes=len([c for c in cfgs if c["scen"] == "phase"]), expected_delays="symbolic on the 1us grid in [0,1]")
-    rep.assumptions = ["delay distributions replaced by stand-ins exposing quantile/mean (no JAX involved)", "histories: construction, then set_delay on a node, on a connection, again on the same node, on the last node, on the last connection, and one call passing only a distribution (phases/infos checked after each stage)",
+    rep.assumptions = ["delay distributions replaced by stand-ins exposing quantile/mean (no JAX involved)", "histories: construction (and: connect, re-connect of the same pair, set_delay -- sender and receiver views must be one connection), then set_delay on a node, on a connection, again on the same node, on the last node, on the last connection, and one call passing only a distribution (phases/infos checked after each stage)",
                        "'takes effect in subsequent simulation': (i) the runtime objects (node.delay_dist / connection.delay_dist / info) are the new ones; (ii) threaded runtime: the real "
                        "warmup / _reset / reset of the node and connection wrappers with jax.jit replaced by the identity (compilation not modelled) -- known finding K5; the compiled "
                        "runtime reads the distributions when graphs are generated (C12)"]
